@@ -642,7 +642,7 @@ def _mem_take(m, args, ci):
 def _mem_forget(m, args, ci):
     return unit()
 
-@I.rx(r'^(core|std)::panicking::(panic|panic_fmt|panic_display|panic_explicit|unreachable_display|panic_nounwind|panic_const::.*)$')
+@I.rx(r'(^|::)(panic|panic_fmt|panic_display|panic_explicit|unreachable_display|panic_nounwind|begin_panic)$|(^|::)panic_const::')
 def _panic(m, args, ci):
     raise Panic('panic: %r' % (args[0] if args else '',), m.where())
 
